@@ -137,6 +137,8 @@ void density_sketch<T, K, A>::compact() {
     if (levels_[height].size() >= k_) {
       if (height + 1 >= levels_.size()) levels_.push_back(Level(levels_.get_allocator()));
       compact_level(height);
+      // the serialized image does not record the number of levels: keep the top level non-empty
+      while (levels_.size() > 1 && levels_.back().empty()) levels_.pop_back();
       break;
     }
   }
